@@ -1,6 +1,6 @@
 # C05 - coroutine-mode scheduling: run-to-suspension, FIFO ready queue, full drain
 import re
-from ..core import norm, relloc, live, calls, evs, Broken, value_origin, Tracer, fmt_trace, rooted, has_back_edge, local_env, subst_path, efield, short
+from ..core import norm, relloc, live, calls, evs, Broken, value_origin, Tracer, fmt_trace, rooted, has_back_edge, local_env, subst_path, efield, short, tests, cond_event
 from ..rules import *
 
 EXPLANATION = ('Static analysis of the scheduling discipline: every function that makes a ready handle run branches on coroutine mode and, while a coroutine activation is on the '
@@ -130,9 +130,37 @@ def direct_resume(ctx, db):
                 kind = 'K4 generator\'s own handle'
             elif f['key'] in thread_bodies:
                 kind = 'K5 body of a fresh thread'
+            if kind is None:
+                kind = _inherited_kind(db, f, passed_to_install, thread_bodies)
             ctx.ob(rid, f, e['loc'], kind is not None, 'direct resume of %s is of kind %s' % (e.get('recv'), kind or 'UNKNOWN: it may pre-empt a running coroutine with a ready one'),
                    desc='direct resume in %s of a handle of unknown kind' % f['nname'])
     ctx.cover['direct_resume_sites'] = len(seen)
+
+
+def _inherited_kind(db, f, passed_to_install, thread_bodies, depth=3, seen=None):
+    """a helper that resumes directly inherits the kind of its callers when all of them (transitively) are of one non-pre-empting kind"""
+    seen = seen or set()
+    if depth == 0 or f['key'] in seen:
+        return None
+    seen.add(f['key'])
+    callers = []
+    for g in db.all_instances():
+        if any(e.k in ('call', 'construct') and e.get('callee_key') == f['key'] for e in g.events()):
+            callers.append(g)
+    if not callers:
+        return None
+    kinds = set()
+    for g in callers:
+        if g['nname'] == 'cocls::coro_queue::queue_impl::flush_queue' or g['key'] in passed_to_install:
+            kinds.add('K2')
+        elif g['key'] in thread_bodies:
+            kinds.add('K5')
+        else:
+            k = _inherited_kind(db, g, passed_to_install, thread_bodies, depth - 1, seen)
+            if k is None:
+                return None
+            kinds.add(k.split(' ')[0])
+    return '%s (inherited: helper reached only from such contexts)' % sorted(kinds)[0] if len(kinds) == 1 else None
 
 
 def drain_before_restore(ctx, db):
@@ -190,7 +218,7 @@ def drain_before_restore(ctx, db):
             if not brs:
                 bad = ('drain exits without testing the queue', tr); break
             i, last = brs[-1]
-            ce = next((x for x in reversed(tr[:i]) if x.get('id') == last.cond_ev), None)
+            ce = cond_event(tr, i)
             if ce is None or norm(ce.get('callee') or '') != 'std::deque::empty' or last.val is not True:
                 bad = ('the drain loop can exit while the queue is not known to be empty', tr); break
             for ri in all_indices(tr, is_resume):
